@@ -14,28 +14,48 @@ pub mod binary {
 //@items protocol/binary.rs | * *
 }
 
-// R5/R7 stand-in for num_traits::FromPrimitive (the derive on binary::Command): the table below is a
-// verified function, and the Kani `tables` harness proves it equal to the real derive for all 256 u8.
+// R5/R7 stand-in for num_traits::FromPrimitive (the derive on binary::Command).  ASSUMED: the derive returns the
+// variant whose discriminant equals n (first match in declaration order); the discriminants themselves come from the
+// extracted enum, so renaming or renumbering variants in /repo is seen by every contract that goes through from_u8.
 pub trait FromPrimitive: Sized { fn from_u8(n: u8) -> (r: Option<Self>); }
 pub open spec fn command_of(n: u8) -> Option<binary::Command> {
-    if n == 0x00 { Some(binary::Command::Get) } else if n == 0x01 { Some(binary::Command::Set) }
-    else if n == 0x02 { Some(binary::Command::Add) } else if n == 0x03 { Some(binary::Command::Replace) }
-    else if n == 0x04 { Some(binary::Command::Delete) } else if n == 0x05 { Some(binary::Command::Increment) }
-    else if n == 0x06 { Some(binary::Command::Decrement) } else if n == 0x07 { Some(binary::Command::Quit) }
-    else if n == 0x08 { Some(binary::Command::Flush) } else if n == 0x09 { Some(binary::Command::GetQuiet) }
-    else if n == 0x0a { Some(binary::Command::Noop) } else if n == 0x0b { Some(binary::Command::Version) }
-    else if n == 0x0c { Some(binary::Command::GetKey) } else if n == 0x0d { Some(binary::Command::GetKeyQuiet) }
-    else if n == 0x0e { Some(binary::Command::Append) } else if n == 0x0f { Some(binary::Command::Prepend) }
-    else if n == 0x10 { Some(binary::Command::Stat) } else if n == 0x11 { Some(binary::Command::SetQuiet) }
-    else if n == 0x12 { Some(binary::Command::AddQuiet) } else if n == 0x13 { Some(binary::Command::ReplaceQuiet) }
-    else if n == 0x14 { Some(binary::Command::DeleteQuiet) } else if n == 0x15 { Some(binary::Command::IncrementQuiet) }
-    else if n == 0x16 { Some(binary::Command::DecrementQuiet) } else if n == 0x17 { Some(binary::Command::QuitQuiet) }
-    else if n == 0x18 { Some(binary::Command::FlushQuiet) } else if n == 0x19 { Some(binary::Command::AppendQuiet) }
-    else if n == 0x1a { Some(binary::Command::PrependQuiet) } else if n == 0x1c { Some(binary::Command::Touch) }
-    else if n == 0x1d { Some(binary::Command::GetAndTouch) } else if n == 0x1e { Some(binary::Command::GetAndTouchQuiet) }
-    else if n == 0x20 { Some(binary::Command::SaslListMechs) } else if n == 0x21 { Some(binary::Command::SaslAuth) }
-    else if n == 0x22 { Some(binary::Command::SaslStep) } else if n == 0x23 { Some(binary::Command::GetAndTouchKey) }
-    else if n == 0x24 { Some(binary::Command::GetAndTouchKeyQuiet) } else if n == 0x25 { Some(binary::Command::OpCodeMax) }
+    // what #[derive(FromPrimitive)] generates: the variant whose discriminant (taken from the extracted enum) equals n
+    if n == binary::Command::Get as u8 { Some(binary::Command::Get) }
+    else if n == binary::Command::Set as u8 { Some(binary::Command::Set) }
+    else if n == binary::Command::Add as u8 { Some(binary::Command::Add) }
+    else if n == binary::Command::Replace as u8 { Some(binary::Command::Replace) }
+    else if n == binary::Command::Delete as u8 { Some(binary::Command::Delete) }
+    else if n == binary::Command::Increment as u8 { Some(binary::Command::Increment) }
+    else if n == binary::Command::Decrement as u8 { Some(binary::Command::Decrement) }
+    else if n == binary::Command::Quit as u8 { Some(binary::Command::Quit) }
+    else if n == binary::Command::Flush as u8 { Some(binary::Command::Flush) }
+    else if n == binary::Command::GetQuiet as u8 { Some(binary::Command::GetQuiet) }
+    else if n == binary::Command::Noop as u8 { Some(binary::Command::Noop) }
+    else if n == binary::Command::Version as u8 { Some(binary::Command::Version) }
+    else if n == binary::Command::GetKey as u8 { Some(binary::Command::GetKey) }
+    else if n == binary::Command::GetKeyQuiet as u8 { Some(binary::Command::GetKeyQuiet) }
+    else if n == binary::Command::Append as u8 { Some(binary::Command::Append) }
+    else if n == binary::Command::Prepend as u8 { Some(binary::Command::Prepend) }
+    else if n == binary::Command::Stat as u8 { Some(binary::Command::Stat) }
+    else if n == binary::Command::SetQuiet as u8 { Some(binary::Command::SetQuiet) }
+    else if n == binary::Command::AddQuiet as u8 { Some(binary::Command::AddQuiet) }
+    else if n == binary::Command::ReplaceQuiet as u8 { Some(binary::Command::ReplaceQuiet) }
+    else if n == binary::Command::DeleteQuiet as u8 { Some(binary::Command::DeleteQuiet) }
+    else if n == binary::Command::IncrementQuiet as u8 { Some(binary::Command::IncrementQuiet) }
+    else if n == binary::Command::DecrementQuiet as u8 { Some(binary::Command::DecrementQuiet) }
+    else if n == binary::Command::QuitQuiet as u8 { Some(binary::Command::QuitQuiet) }
+    else if n == binary::Command::FlushQuiet as u8 { Some(binary::Command::FlushQuiet) }
+    else if n == binary::Command::AppendQuiet as u8 { Some(binary::Command::AppendQuiet) }
+    else if n == binary::Command::PrependQuiet as u8 { Some(binary::Command::PrependQuiet) }
+    else if n == binary::Command::Touch as u8 { Some(binary::Command::Touch) }
+    else if n == binary::Command::GetAndTouch as u8 { Some(binary::Command::GetAndTouch) }
+    else if n == binary::Command::GetAndTouchQuiet as u8 { Some(binary::Command::GetAndTouchQuiet) }
+    else if n == binary::Command::SaslListMechs as u8 { Some(binary::Command::SaslListMechs) }
+    else if n == binary::Command::SaslAuth as u8 { Some(binary::Command::SaslAuth) }
+    else if n == binary::Command::SaslStep as u8 { Some(binary::Command::SaslStep) }
+    else if n == binary::Command::GetAndTouchKey as u8 { Some(binary::Command::GetAndTouchKey) }
+    else if n == binary::Command::GetAndTouchKeyQuiet as u8 { Some(binary::Command::GetAndTouchKeyQuiet) }
+    else if n == binary::Command::OpCodeMax as u8 { Some(binary::Command::OpCodeMax) }
     else { None }
 }
 impl FromPrimitive for binary::Command {
@@ -66,7 +86,7 @@ impl MemcacheBinaryCodec {
         final(self).item_size_limit == old(self).item_size_limit, // @ob C13 init_parser.limit_kept
 //@endfn
 
-//@fn protocol/binary_codec.rs | impl MemcacheBinaryCodec | parse_header | ret=r | safety=C10
+//@fn protocol/binary_codec.rs | impl MemcacheBinaryCodec | parse_header | ret=r | safety=C10,C09,C12,C19
     ensures
         final(self).item_size_limit == old(self).item_size_limit, // @ob C13 parse_header.limit_kept
         old(src)@.len() < 24 ==> r is Err, // @ob C10 parse_header.short_is_err
@@ -83,13 +103,13 @@ impl MemcacheBinaryCodec {
         r == header_ok(self.header), // @ob C10 header_valid.exact
 //@endfn
 
-//@fn protocol/binary_codec.rs | impl MemcacheBinaryCodec | parse_request | ret=r | safety=C10
+//@fn protocol/binary_codec.rs | impl MemcacheBinaryCodec | parse_request | ret=r | safety=C10,C09,C12,C19
     ensures
         final(self).item_size_limit == old(self).item_size_limit, // @ob C13 parse_request.limit_kept
         !st_hdr(*old(self)) ==> r is Err, // @ob C10 parse_request.needs_header
         (st_hdr(*old(self)) && old(self).header.body_length <= old(self).item_size_limit && old(src)@.len() < old(self).header.body_length) ==> r is Err, // @ob C09 parse_request.incomplete_is_err
         (st_hdr(*old(self)) && old(self).header.body_length <= old(self).item_size_limit && old(src)@.len() >= old(self).header.body_length)
-            ==> body_post(old(self).header, old(src)@, final(src)@, r), // @ob C09,C10,C12,C18 parse_request.frame_exact
+            ==> body_post(old(self).header, old(src)@, final(src)@, r), // @ob C09,C10,C12,C18,C19 parse_request.frame_exact
         (st_hdr(*old(self)) && old(self).header.body_length <= old(self).item_size_limit && old(src)@.len() >= old(self).header.body_length)
             ==> st_none(*final(self)), // @ob C09 parse_request.resets_state
 //@endfn
@@ -103,74 +123,74 @@ impl MemcacheBinaryCodec {
         r == self.header.body_length - self.header.key_length - self.header.extras_length, // @ob C09 get_value_len.exact
 //@endfn
 
-//@fn protocol/binary_codec.rs | impl MemcacheBinaryCodec | parse_get_request | ret=r | safety=C10
+//@fn protocol/binary_codec.rs | impl MemcacheBinaryCodec | parse_get_request | ret=r | safety=C10,C09,C12,C19
     requires
         op_get_class(self.header.opcode),
         old(src)@.len() >= self.header.body_length,
     ensures
-        parser_post(self.header, old(src)@, final(src)@, r), // @ob C09,C10,C01,C19 parse_get_request.frame_exact
+        parser_post(self.header, old(src)@, final(src)@, r), // @ob C09,C10,C01,C19,C12,C18 parse_get_request.frame_exact
 //@endfn
 
-//@fn protocol/binary_codec.rs | impl MemcacheBinaryCodec | parse_delete_request | ret=r | safety=C10
+//@fn protocol/binary_codec.rs | impl MemcacheBinaryCodec | parse_delete_request | ret=r | safety=C10,C09,C12,C19
     requires
         op_delete_class(self.header.opcode),
         old(src)@.len() >= self.header.body_length,
     ensures
-        parser_post(self.header, old(src)@, final(src)@, r), // @ob C09,C10,C08,C19 parse_delete_request.frame_exact
+        parser_post(self.header, old(src)@, final(src)@, r), // @ob C09,C10,C08,C19,C12,C18 parse_delete_request.frame_exact
 //@endfn
 
-//@fn protocol/binary_codec.rs | impl MemcacheBinaryCodec | parse_header_only_request | ret=r | safety=C10
+//@fn protocol/binary_codec.rs | impl MemcacheBinaryCodec | parse_header_only_request | ret=r | safety=C10,C09,C12,C19
     requires
         op_header_only_class(self.header.opcode),
         old(src)@.len() >= self.header.body_length,
     ensures
-        parser_post(self.header, old(src)@, final(src)@, r), // @ob C09,C10,C12 parse_header_only_request.frame_exact
+        parser_post(self.header, old(src)@, final(src)@, r), // @ob C09,C10,C12,C18,C19 parse_header_only_request.frame_exact
 //@endfn
 
-//@fn protocol/binary_codec.rs | impl MemcacheBinaryCodec | parse_not_supported_request | ret=r | safety=C10
+//@fn protocol/binary_codec.rs | impl MemcacheBinaryCodec | parse_not_supported_request | ret=r | safety=C10,C09,C12,C19
     requires
         op_unimplemented(self.header.opcode),
         old(src)@.len() >= self.header.body_length,
     ensures
-        parser_post(self.header, old(src)@, final(src)@, r), // @ob C09,C10,C12 parse_not_supported_request.frame_exact
+        parser_post(self.header, old(src)@, final(src)@, r), // @ob C09,C10,C12,C18,C19 parse_not_supported_request.frame_exact
 //@endfn
 
-//@fn protocol/binary_codec.rs | impl MemcacheBinaryCodec | parse_flush_request | ret=r | safety=C10
+//@fn protocol/binary_codec.rs | impl MemcacheBinaryCodec | parse_flush_request | ret=r | safety=C10,C09,C12,C19
     requires
         op_flush_class(self.header.opcode),
         old(src)@.len() >= self.header.body_length,
     ensures
-        parser_post(self.header, old(src)@, final(src)@, r), // @ob C09,C10,C08,C19 parse_flush_request.frame_exact
+        parser_post(self.header, old(src)@, final(src)@, r), // @ob C09,C10,C08,C19,C12,C18 parse_flush_request.frame_exact
 //@endfn
 
-//@fn protocol/binary_codec.rs | impl MemcacheBinaryCodec | parse_append_prepend_request | ret=r | safety=C10
+//@fn protocol/binary_codec.rs | impl MemcacheBinaryCodec | parse_append_prepend_request | ret=r | safety=C10,C09,C12,C19
     requires
         op_append_class(self.header.opcode),
         old(src)@.len() >= self.header.body_length,
     ensures
-        parser_post(self.header, old(src)@, final(src)@, r), // @ob C09,C10,C06,C19,C01 parse_append_prepend_request.frame_exact
+        parser_post(self.header, old(src)@, final(src)@, r), // @ob C09,C10,C06,C19,C01,C12,C18 parse_append_prepend_request.frame_exact
 //@endfn
 
-//@fn protocol/binary_codec.rs | impl MemcacheBinaryCodec | parse_inc_dec_request | ret=r | safety=C10
+//@fn protocol/binary_codec.rs | impl MemcacheBinaryCodec | parse_inc_dec_request | ret=r | safety=C10,C09,C12,C19
     requires
         op_incdec_class(self.header.opcode),
         old(src)@.len() >= self.header.body_length,
     ensures
-        parser_post(self.header, old(src)@, final(src)@, r), // @ob C09,C10,C07,C19 parse_inc_dec_request.frame_exact
+        parser_post(self.header, old(src)@, final(src)@, r), // @ob C09,C10,C07,C19,C12,C18 parse_inc_dec_request.frame_exact
 //@endfn
 
-//@fn protocol/binary_codec.rs | impl MemcacheBinaryCodec | parse_item_too_large | ret=r | safety=C10
+//@fn protocol/binary_codec.rs | impl MemcacheBinaryCodec | parse_item_too_large | ret=r | safety=C10,C09,C12,C19
     ensures
         r is Ok && r->Ok_0 is Some && same_req(req_view(r->Ok_0->Some_0), too_large_req(self.header)), // @ob C13 parse_item_too_large.header_only
         final(_src)@ == old(_src)@, // @ob C13 parse_item_too_large.buffer_untouched
 //@endfn
 
-//@fn protocol/binary_codec.rs | impl MemcacheBinaryCodec | parse_set_request | ret=r | safety=C10
+//@fn protocol/binary_codec.rs | impl MemcacheBinaryCodec | parse_set_request | ret=r | safety=C10,C09,C12,C19
     requires
         op_set_class(self.header.opcode),
         old(src)@.len() >= self.header.body_length,
     ensures
-        parser_post(self.header, old(src)@, final(src)@, r), // @ob C09,C10,C01,C06,C19 parse_set_request.frame_exact
+        parser_post(self.header, old(src)@, final(src)@, r), // @ob C09,C10,C01,C06,C19,C12,C18 parse_set_request.frame_exact
 //@endfn
 
 //@fn protocol/binary_codec.rs | impl MemcacheBinaryCodec | request_valid | ret=r | safety=C10
